@@ -186,12 +186,24 @@ def call_command(ctx, interp, fn, args):
     return interp.call(fn, tuple(args), extra)
 
 
-def file_hooks(events, disk=None):
-    """Hooks modelling open/json.dump/json.load/os.replace as recorded events."""
+def file_hooks(events, disk=None, existing=()):
+    """Hooks modelling open/json.dump/json.load/os.replace as recorded events.  `existing`: paths that are there already (exclusive creation fails on them)."""
+    import os as _os
+    existing = set(existing)
+
     def h_open(path, mode="r", *a, **k):
         mode = k.get("mode", mode)
+        if "x" in str(mode) and str(path) in existing:
+            raise Raised("FileExistsError", str(path))
         events.append(("open", str(path), mode))
         return Obj("file", path=str(path), mode=mode)
+
+    def h_os_open(path, flags=0, mode=0o777, *a, **k):
+        if isinstance(flags, int) and flags & _os.O_EXCL and str(path) in existing:
+            raise Raised("FileExistsError", f"[Errno 17] File exists: {path}")
+        wr = isinstance(flags, int) and flags & (_os.O_WRONLY | _os.O_RDWR)
+        events.append(("open", str(path), "w" if wr else "r"))
+        return Obj("fd", path=str(path))
 
     def h_dump(data, fobj, *a, **k):
         events.append(("dump", dict(data) if isinstance(data, dict) else data, getattr(fobj, "path", None)))
@@ -220,7 +232,7 @@ def file_hooks(events, disk=None):
         events.append(("open", path, k.get("mode", mode)))
         return Obj("file", path=path, mode=k.get("mode", mode), name=path)
 
-    return {"gwf.core.hash_spec": lambda spec: "H(" + str(spec) + ")", "builtins.open": h_open,
+    return {"gwf.core.hash_spec": lambda spec: "H(" + str(spec) + ")", "builtins.open": h_open, "os.open": h_os_open, "os.close": lambda fd: None,
             "tempfile.NamedTemporaryFile": h_named_tmp, "tempfile.mkstemp": h_mkstemp, "os.fdopen": h_fdopen, "tempfile.gettempdir": lambda: tok("TMPDIR"),
             "os.fsync": lambda *a, **k: None, "attr:flush": lambda recv, *a: None, "attr:fileno": lambda recv, *a: Obj("fd", path=getattr(recv, "path", None)), "json.dump": h_dump, "json.load": h_load, "os.replace": h_replace, "os.rename": h_replace,
             "attr:write": lambda recv, *a: events.append(("write", getattr(recv, "path", None), a[0] if a else None)),
@@ -418,11 +430,11 @@ def store_object(ctx, ckey, attr, table):
     return ci, obj
 
 
-def eval_close(ctx, ckey, attr, table, script=(), disk=None):
+def eval_close(ctx, ckey, attr, table, script=(), disk=None, existing=()):
     """Run `script` (list of (method, target name)) then close(); returns the recorded event list or an error string."""
     ci, obj = store_object(ctx, ckey, attr, table)
     events = []
-    hooks = file_hooks(events, disk)
+    hooks = file_hooks(events, disk, existing)
     hooks["attr:submit_target"] = lambda recv, target, ids: tok("NEW_" + getattr(target, "name", "?"))
     interp = PureInterp(ctx, hooks=hooks)
     interp.events = events
@@ -1402,6 +1414,8 @@ def eval_cancel_command(ctx, patterns=(), force=False, fail=None):
         "gwf.filtering.filter_names": h_filter,
         "gwf.backends.base.create_backend": h_backend, "gwf.backends.create_backend": h_backend,
         "attr:cancel": h_cancel,
+        # what gwf last heard of the jobs: A runs, C is queued, B's job is in a state gwf shows as unknown (SGE Eqw / dr, LSF UNKWN ...) - alive at the scheduler all the same
+        "attr:status": lambda recv, target: EnumVal("gwf.backends.base.BackendStatus", {"A": "RUNNING", "B": "UNKNOWN", "C": "SUBMITTED"}.get(target.name, "UNKNOWN")),
         "with_exit": lambda v: events.append(("backend.close",)) if v._name == "backend" else None,
         "click.echo": lambda *a, **k: events.append(("echo", a[0] if a else "")),
     }
@@ -2155,7 +2169,14 @@ def eval_schedule(ctx, deps, states, stale, endpoints):
     Returns ({name: Status member}, [(submitted name, [prerequisite names])]) or an error string."""
     sch = ctx.index.func("gwf.scheduling:schedule")
     T = {n: target_obj(ctx, name=n) for n in deps}
-    graph = Obj("graph", dependencies={T[n]: {T[d] for d in ds} for n, ds in deps.items()})
+    # (an instance of the package's Graph class, so that its own helpers - dfs, endpoints - are there for a scheduler that uses them)
+    try:
+        gcls = ctx.index.cls("gwf.core:Graph")
+    except Exception:
+        gcls = None
+    gattrs = dict(dependencies={T[n]: {T[d] for d in ds} for n, ds in deps.items()}, dependents={T[n]: {T[m] for m, ds in deps.items() if n in ds} for n in deps},
+                  targets={n: T[n] for n in deps}, provides={}, unresolved=set())
+    graph = Obj("graph", **gattrs, **({"__class__": gcls} if gcls is not None else {}))
     submitted = []
 
     def status_func(target):
@@ -2212,6 +2233,9 @@ SCHEDULE_GRAPHS = {
     "chain": ({"A": [], "B": ["A"], "C": ["B"]}, ["C"]),
     "diamond": ({"A": [], "B": ["A"], "C": ["A"], "D": ["B", "C"]}, ["D"]),
     "two endpoints sharing a dependency, one requested": ({"A": [], "X": ["A"], "Y": ["A"], "Z": []}, ["X"]),
+    # a redundant ("shortcut") edge: Call needs the index and the mapping made from it.  With Map still running from an earlier run and Index submitted again now,
+    # Call must wait for BOTH jobs - the running Map job does not wait for the new Index job
+    "triangle": ({"Index": [], "Map": ["Index"], "Call": ["Index", "Map"]}, ["Call"]),
 }
 
 
